@@ -235,3 +235,258 @@ Proof.
   pose proof (nthb_lt256 s o H256) as Hc. generalize dependent (nthb s o). intros c Hc.
   sweep_byte c Hc.
 Qed.
+
+(* ------------------------------------------------------------------ brk_len (regex.c) *)
+(* a char promoted to int compared with an ASCII constant *)
+Lemma sx_eq_93 : forall c, (c < 256)%N -> (sx c =? 93) = (c =? 93)%N.  Proof. byte_fact. Qed.
+Lemma sx_eq_94 : forall c, (c < 256)%N -> (sx c =? 94) = (c =? 94)%N.  Proof. byte_fact. Qed.
+Lemma sx_eq_91 : forall c, (c < 256)%N -> (sx c =? 91) = (c =? 91)%N.  Proof. byte_fact. Qed.
+Lemma sx_eq_58 : forall c, (c < 256)%N -> (sx c =? 58) = (c =? 58)%N.  Proof. byte_fact. Qed.
+Lemma sx_eq_61 : forall c, (c < 256)%N -> (sx c =? 61) = (c =? 61)%N.  Proof. byte_fact. Qed.
+Lemma sx_eq_0 : forall c, (c < 256)%N -> (sx c =? 0) = (c =? 0)%N.  Proof. byte_fact. Qed.
+Ltac fold_sx := repeat match goal with |- context [wrap I32 (wrap I8 (Z.of_N ?c))] => change (wrap I32 (wrap I8 (Z.of_N c))) with (sx c) end.
+
+Lemma hd0_skipn (s : bytes) o : hd0 (skipn o s) = nthb s o.
+Proof. rewrite <- (Nat.add_0_r o) at 2. rewrite <- nthb_skipn. destruct (skipn o s); reflexivity. Qed.
+
+(* while (s[n] && s[n] != ']') n++;   -- how far it moves *)
+Fixpoint span93 (r : bytes) : nat :=
+  match r with [] => 0%nat | c :: r' => if (c =? 93)%N then 0%nat else S (span93 r') end.
+Lemma span93_le r : (span93 r <= length r)%nat.
+Proof. induction r as [|c r IH]; cbn; [lia|]. destruct (c =? 93)%N; lia. Qed.
+Lemma brk_body_true r :
+  brk_body true r = match skipn (span93 r) r with [] => span93 r | _ :: r' => S (span93 r + brk_body false r') end.
+Proof.
+  induction r as [|c r IH]; [reflexivity|]. cbn [brk_body span93]. destruct (c =? 93)%N; [reflexivity|].
+  cbn [skipn]. rewrite IH. destruct (skipn (span93 r) r); reflexivity.
+Qed.
+Lemma brk_body_le inner r : (brk_body inner r <= length r)%nat.
+Proof.
+  revert inner; induction r as [|c r IH]; intro inner; cbn [brk_body length]; [lia|].
+  pose proof (IH true); pose proof (IH false).
+  destruct inner; [destruct (c =? 93)%N; lia|]. destruct (c =? 93)%N; [lia|]. destruct (_ && _); lia.
+Qed.
+
+Definition brk_len_outer : stmt :=
+  match fn_body cf_brk_len with SSeq _ (SSeq _ (SSeq _ (SSeq w _))) => w | _ => SSkip end.
+Definition brk_len_inner : stmt :=
+  match brk_len_outer with SWhile _ (SSeq (SIf _ w _) _) => w | _ => SSkip end.
+
+Lemma nonul_nz (s : bytes) p : nonul s -> (p < length s)%nat -> (nthb s p =? 0)%N = false.
+Proof. apply nonul_nthb_nz. Qed.
+
+Lemma brk_len_inner_ok call m b s o : str_at m b s -> nonul s ->
+  forall j n fuel, span93 (skipn (o + n) s) = j -> (o + n <= length s)%nat -> (j < fuel)%nat ->
+  Z.of_nat (length s) < 2147483647 ->
+  exec call fuel brk_len_inner (mkst [VPtr b (Z.of_nat o); VInt (Z.of_nat n)] m)
+  = ONormal (mkst [VPtr b (Z.of_nat o); VInt (Z.of_nat (n + j))] m).
+Proof.
+  intros Hs Hnn. pose proof (nonul_lt256 s Hnn) as H256.
+  induction j as [|j IH]; intros n fuel Hj Hp Hf Hmax; (destruct fuel as [|fuel]; [lia|]);
+    unfold brk_len_inner, brk_len_outer; cbn [fn_body cf_brk_len]; rewrite exec_while; xstep;
+    replace (Z.of_nat o + 1 * Z.of_nat n) with (Z.of_nat (o + n)) by lia;
+    rewrite (load_str m b s _ (o + n)%nat Hs) by lia; xstep; fold_sx;
+    pose proof (nthb_lt256 s (o + n) H256) as Hc; rewrite (sx_eq_0 _ Hc).
+  - destruct (Nat.eq_dec (o + n) (length s)) as [E|E].
+    + rewrite nthb_end by lia. cbn [N.eqb negb]. rewrite Nat.add_0_r. reflexivity.
+    + rewrite nonul_nz by (auto; lia). cbn [negb].
+      rewrite (load_str m b s _ (o + n)%nat Hs) by lia. xstep. fold_sx. rewrite (sx_eq_93 _ Hc).
+      rewrite (skipn_cons_nthb s (o + n)) in Hj by lia. cbn [span93] in Hj.
+      destruct (nthb s (o + n) =? 93)%N; [|discriminate]. cbn. rewrite Nat.add_0_r. reflexivity.
+  - destruct (Nat.eq_dec (o + n) (length s)) as [E|E]; [rewrite skipn_end in Hj by lia; discriminate|].
+    rewrite nonul_nz by (auto; lia). cbn [negb].
+    rewrite (load_str m b s _ (o + n)%nat Hs) by lia. xstep. fold_sx. rewrite (sx_eq_93 _ Hc).
+    rewrite (skipn_cons_nthb s (o + n)) in Hj by lia. cbn [span93] in Hj.
+    destruct (nthb s (o + n) =? 93)%N; [discriminate|]. injection Hj as Hj. cbn [negb b2z]. xstep.
+    rewrite (chk_I32 (Z.of_nat n + 1)) by lia. xstep.
+    replace (Z.of_nat n + 1) with (Z.of_nat (S n)) by lia.
+    change (SWhile _ _) with brk_len_inner.
+    rewrite (IH (S n) fuel) by (try lia; replace (o + S n)%nat with (S (o + n)) by lia; exact Hj).
+    replace (S n + j)%nat with (n + S j)%nat by lia. reflexivity.
+Qed.
+Lemma brk_len_outer_ok call m b s o : str_at m b s -> nonul s -> Z.of_nat (length s) < 2147483647 ->
+  forall k n fuel, (length s - (o + n) <= k)%nat -> (o + n <= length s)%nat -> (k < fuel)%nat ->
+  exec call fuel brk_len_outer (mkst [VPtr b (Z.of_nat o); VInt (Z.of_nat n)] m)
+  = ONormal (mkst [VPtr b (Z.of_nat o); VInt (Z.of_nat (n + brk_body false (skipn (o + n) s)))] m).
+Proof.
+  intros Hs Hnn Hmax. pose proof (nonul_lt256 s Hnn) as H256.
+  induction k as [|k IH]; intros n fuel Hk Hp Hf; (destruct fuel as [|fuel]; [lia|]);
+    unfold brk_len_outer; cbn [fn_body cf_brk_len]; rewrite exec_while; xstep;
+    replace (Z.of_nat o + 1 * Z.of_nat n) with (Z.of_nat (o + n)) by lia;
+    rewrite (load_str m b s _ (o + n)%nat Hs) by lia; xstep; fold_sx;
+    pose proof (nthb_lt256 s (o + n) H256) as Hc; rewrite (sx_eq_0 _ Hc).
+  - assert (o + n = length s)%nat as E by lia. rewrite nthb_end by lia. rewrite skipn_end by lia.
+    cbn. rewrite Nat.add_0_r. reflexivity.
+  - destruct (Nat.eq_dec (o + n) (length s)) as [E|E].
+    { rewrite nthb_end by lia. rewrite skipn_end by lia. cbn. rewrite Nat.add_0_r. reflexivity. }
+    rewrite nonul_nz by (auto; lia). cbn [negb].
+    rewrite (load_str m b s _ (o + n)%nat Hs) by lia. xstep. fold_sx. rewrite (sx_eq_93 _ Hc).
+    rewrite (skipn_cons_nthb s (o + n)) by lia. cbn [brk_body]. rewrite hd0_skipn.
+    destruct (nthb s (o + n) =? 93)%N eqn:E93; cbn [negb b2z]; xstep.
+    { rewrite Nat.add_0_r. reflexivity. }
+    rewrite (load_str m b s _ (o + n)%nat Hs) by lia. xstep. fold_sx. rewrite (sx_eq_91 _ Hc).
+    assert (IH' := IH). unfold brk_len_outer in IH'; cbn [fn_body cf_brk_len] in IH'.
+    pose proof (nthb_lt256 s (S (o + n)) H256) as Hc1.
+    (* the tail of an iteration: if (s[n']) n'++; then the loop again *)
+    assert (Tail : forall n', (n < n' \/ n = n')%nat -> (o + n' <= length s)%nat ->
+      forall r, r = (match skipn (o + n') s with [] => n' | _ :: r' => S (n' + brk_body false r') end) ->
+      match
+        exec call (S fuel) (SIf (ELoad (Some I8) (EPtrAdd 1 (ELocal 0) (ELocal 1))) (SExpr (EIncLocal true 1 (Some I32) 1)) SSkip)
+             (mkst [VPtr b (Z.of_nat o); VInt (Z.of_nat n')] m)
+      with
+      | ONormal st2 | OContinue st2 => exec call fuel brk_len_outer st2
+      | OBreak st2 => ONormal st2
+      | o => o
+      end = ONormal (mkst [VPtr b (Z.of_nat o); VInt (Z.of_nat r)] m)).
+    { intros n' Hn' Hp' r ->. xstep.
+      replace (Z.of_nat o + 1 * Z.of_nat n') with (Z.of_nat (o + n')) by lia.
+      rewrite (load_str m b s _ (o + n')%nat Hs) by lia. xstep.
+      rewrite (cc_z0 _ (nthb_lt256 s (o + n') H256)).
+      destruct (Nat.eq_dec (o + n') (length s)) as [E'|E'].
+      - rewrite nthb_end by lia. cbn [N.eqb negb]. xstep. rewrite (IH n' fuel) by lia.
+        rewrite skipn_end by lia. cbn [brk_body]. rewrite Nat.add_0_r. reflexivity.
+      - rewrite nonul_nz by (auto; lia). cbn [negb]. xstep.
+        rewrite (chk_I32 (Z.of_nat n' + 1)) by lia. xstep.
+        replace (Z.of_nat n' + 1) with (Z.of_nat (S n')) by lia.
+        rewrite (IH (S n') fuel) by lia.
+        rewrite (skipn_cons_nthb s (o + n')) by lia.
+        replace (o + S n')%nat with (S (o + n')) by lia. reflexivity. }
+    unfold brk_len_outer in Tail; cbn [fn_body cf_brk_len] in Tail.
+    (* the inner scan, when it is entered *)
+    assert (Inner : ((nthb s (o + n) =? 91)%N && ((nthb s (S (o + n)) =? 58)%N || (nthb s (S (o + n)) =? 61)%N)) = true ->
+      match
+        match exec call (S fuel) brk_len_inner (mkst [VPtr b (Z.of_nat o); VInt (Z.of_nat n)] m) with
+        | ONormal st1 => exec call (S fuel) (SIf (ELoad (Some I8) (EPtrAdd 1 (ELocal 0) (ELocal 1))) (SExpr (EIncLocal true 1 (Some I32) 1)) SSkip) st1
+        | o => o
+        end
+      with
+      | ONormal st2 | OContinue st2 => exec call fuel brk_len_outer st2
+      | OBreak st2 => ONormal st2
+      | o => o
+      end = ONormal (mkst [VPtr b (Z.of_nat o); VInt (Z.of_nat (n + S (brk_body true (skipn (S (o + n)) s))))] m)).
+    { intros _.
+      pose proof (span93_le (skipn (o + n) s)) as Lj. rewrite skipn_length in Lj.
+      rewrite (brk_len_inner_ok call m b s o Hs Hnn _ n (S fuel) eq_refl) by lia.
+      assert (Ej : span93 (skipn (o + n) s) = S (span93 (skipn (S (o + n)) s))).
+      { rewrite (skipn_cons_nthb s (o + n)) by lia. cbn [span93]. rewrite E93. reflexivity. }
+      apply (Tail (n + span93 (skipn (o + n) s))%nat); [left; lia|lia|].
+      rewrite brk_body_true, skipn_skipn.
+      replace (o + (n + span93 (skipn (o + n) s)))%nat with (S (o + n) + span93 (skipn (S (o + n)) s))%nat by lia.
+      destruct (skipn (S (o + n) + span93 (skipn (S (o + n)) s)) s); lia. }
+    unfold brk_len_inner, brk_len_outer in Inner; cbn [fn_body cf_brk_len] in Inner.
+    assert (Plain :
+      match
+        exec call (S fuel) (SIf (ELoad (Some I8) (EPtrAdd 1 (ELocal 0) (ELocal 1))) (SExpr (EIncLocal true 1 (Some I32) 1)) SSkip)
+             (mkst [VPtr b (Z.of_nat o); VInt (Z.of_nat n)] m)
+      with
+      | ONormal st2 | OContinue st2 => exec call fuel brk_len_outer st2
+      | OBreak st2 => ONormal st2
+      | o => o
+      end = ONormal (mkst [VPtr b (Z.of_nat o); VInt (Z.of_nat (n + S (brk_body false (skipn (S (o + n)) s))))] m)).
+    { apply (Tail n); [right; reflexivity|lia|]. rewrite (skipn_cons_nthb s (o + n)) by lia. lia. }
+    unfold brk_len_outer in Plain; cbn [fn_body cf_brk_len] in Plain.
+    destruct (nthb s (o + n) =? 91)%N eqn:E91; cbn [andb] in *.
+    2:{ exact Plain. }
+    rewrite (chk_I32 (Z.of_nat n + 1)) by lia. xstep.
+    replace (Z.of_nat o + 1 * (Z.of_nat n + 1)) with (Z.of_nat (S (o + n))) by lia.
+    rewrite (load_str m b s _ (S (o + n)) Hs) by lia. xstep. fold_sx. rewrite (sx_eq_58 _ Hc1).
+    destruct (nthb s (S (o + n)) =? 58)%N eqn:E58; cbn [orb] in *.
+    { exact (Inner eq_refl). }
+    xstep.
+    rewrite (chk_I32 (Z.of_nat n + 1)) by lia. xstep.
+    replace (Z.of_nat o + 1 * (Z.of_nat n + 1)) with (Z.of_nat (S (o + n))) by lia.
+    rewrite (load_str m b s _ (S (o + n)) Hs) by lia. xstep. fold_sx. rewrite (sx_eq_61 _ Hc1).
+    destruct (nthb s (S (o + n)) =? 61)%N eqn:E61; cbn [orb] in *.
+    { exact (Inner eq_refl). }
+    exact Plain.
+Qed.
+
+Theorem tr_brk_len m b s o d fuel :
+  str_at m b s -> nonul s -> (o < length s)%nat -> (length s < fuel)%nat -> Z.of_nat (length s) < 2147483647 ->
+  callf cprog fuel (S d) F_brk_len [VPtr b (Z.of_nat o)] m
+  = Ok (VInt (Z.of_nat (brk_len (skipn o s))), m).
+Proof.
+  intros Hs Hnn Ho Hf Hmax. pose proof (nonul_lt256 s Hnn) as H256.
+  destruct fuel as [|fuel0]; [lia|]. remember (S fuel0) as fuel eqn:Efuel.
+  pose proof (brk_len_outer_ok (callf cprog fuel d) m b s o Hs Hnn Hmax) as Outer.
+  unfold brk_len_outer in Outer; cbn [fn_body cf_brk_len] in Outer.
+  enter F_brk_len cf_brk_len. xstep.
+  unfold brk_len. rewrite !nthb_skipn.
+  (* s[1] == '^' *)
+  replace (Z.of_nat o + 1 * 1) with (Z.of_nat (o + 1)) by lia.
+  rewrite (load_str m b s _ (o + 1)%nat Hs) by lia. xstep. fold_sx.
+  rewrite (sx_eq_94 _ (nthb_lt256 s (o + 1) H256)).
+  assert (Step2 : forall n1 : nat, (1 <= n1 <= 2)%nat -> (o + n1 <= length s)%nat ->
+    match
+      match exec (callf cprog fuel d) fuel
+              (SIf (EBin OEq I32 (ECast I32 (ELoad (Some I8) (EPtrAdd 1 (ELocal 0) (ELocal 1)))) (EConst 93))
+                   (SExpr (EIncLocal true 1 (Some I32) 1)) SSkip)
+              (mkst [VPtr b (Z.of_nat o); VInt (Z.of_nat n1)] m)
+      with
+      | ONormal st1 =>
+          match exec (callf cprog fuel d) fuel brk_len_outer st1 with
+          | ONormal st2 =>
+              exec (callf cprog fuel d) fuel
+                (SReturn (Some (ECond (EBin OEq I32 (ECast I32 (ELoad (Some I8) (EPtrAdd 1 (ELocal 0) (ELocal 1)))) (EConst 93))
+                                      (EBin OAdd I32 (ELocal 1) (EConst 1)) (ELocal 1)))) st2
+          | o => o
+          end
+      | o => o
+      end
+    with
+    | OReturn v st => Ok (v, memm st)
+    | ONormal st => Ok (VUndef, memm st)
+    | OErr x => Err x
+    | _ => Err EShape
+    end = Ok (VInt (Z.of_nat
+          (let n2 := if (nthb s (o + n1) =? 93)%N then S n1 else n1 in
+           let n := (n2 + brk_body false (skipn n2 (skipn o s)))%nat in
+           if (nthb s (o + n) =? 93)%N then S n else n)), m)).
+  { intros n1 Hn1 Hp1. xstep.
+    replace (Z.of_nat o + 1 * Z.of_nat n1) with (Z.of_nat (o + n1)) by lia.
+    rewrite (load_str m b s _ (o + n1)%nat Hs) by lia. xstep. fold_sx.
+    rewrite (sx_eq_93 _ (nthb_lt256 s (o + n1) H256)).
+    assert (Fin : forall n2 : nat, (n1 <= n2 <= S n1)%nat -> (o + n2 <= length s)%nat ->
+      match
+        match exec (callf cprog fuel d) fuel brk_len_outer (mkst [VPtr b (Z.of_nat o); VInt (Z.of_nat n2)] m) with
+        | ONormal st2 =>
+            exec (callf cprog fuel d) fuel
+              (SReturn (Some (ECond (EBin OEq I32 (ECast I32 (ELoad (Some I8) (EPtrAdd 1 (ELocal 0) (ELocal 1)))) (EConst 93))
+                                    (EBin OAdd I32 (ELocal 1) (EConst 1)) (ELocal 1)))) st2
+        | o => o
+        end
+      with
+      | OReturn v st => Ok (v, memm st)
+      | ONormal st => Ok (VUndef, memm st)
+      | OErr x => Err x
+      | _ => Err EShape
+      end = Ok (VInt (Z.of_nat
+            (let n := (n2 + brk_body false (skipn n2 (skipn o s)))%nat in
+             if (nthb s (o + n) =? 93)%N then S n else n)), m)).
+    { intros n2 Hn2 Hp2. rewrite (brk_len_outer_ok (callf cprog fuel d) m b s o Hs Hnn Hmax (length s) n2 fuel) by lia.
+      rewrite skipn_skipn. cbv zeta.
+      pose proof (brk_body_le false (skipn (o + n2) s)) as Lb. rewrite skipn_length in Lb.
+      set (n := (n2 + brk_body false (skipn (o + n2) s))%nat) in *.
+      xstep. replace (Z.of_nat o + 1 * Z.of_nat n) with (Z.of_nat (o + n)) by lia.
+      rewrite (load_str m b s _ (o + n)%nat Hs) by lia. xstep. fold_sx.
+      rewrite (sx_eq_93 _ (nthb_lt256 s (o + n) H256)).
+      destruct (nthb s (o + n) =? 93)%N; cbn [b2z negb Z.eqb]; xstep; [|reflexivity].
+      rewrite (chk_I32 (Z.of_nat n + 1)) by lia. xstep. repeat f_equal. lia. }
+    unfold brk_len_outer in Fin; cbn [fn_body cf_brk_len] in Fin.
+    cbv zeta.
+    destruct (nthb s (o + n1) =? 93)%N eqn:E93; cbn [b2z negb Z.eqb]; xstep.
+    - rewrite (chk_I32 (Z.of_nat n1 + 1)) by lia. xstep.
+      replace (Z.of_nat n1 + 1) with (Z.of_nat (S n1)) by lia.
+      assert (nthb s (o + n1) <> 0%N) by (intro Z0; rewrite Z0 in E93; discriminate).
+      pose proof (nthb_nz_lt s (o + n1) H).
+      exact (Fin (S n1) ltac:(lia) ltac:(lia)).
+    - exact (Fin n1 ltac:(lia) ltac:(lia)). }
+  unfold brk_len_outer in Step2; cbn [fn_body cf_brk_len] in Step2. cbv zeta in Step2.
+  cbv zeta. rewrite Efuel in *.
+  destruct (nthb s (o + 1) =? 94)%N eqn:E94; cbn [b2z negb Z.eqb]; xstep.
+  - rewrite (chk_I32 (1 + 1)) by lia. xstep.
+    assert (nthb s (o + 1) <> 0%N) by (intro Z0; rewrite Z0 in E94; discriminate).
+    pose proof (nthb_nz_lt s (o + 1) H).
+    exact (Step2 2%nat ltac:(lia) ltac:(lia)).
+  - exact (Step2 1%nat ltac:(lia) ltac:(lia)).
+Qed.
